@@ -14,12 +14,19 @@ use crate::gen::*;
 use crate::refmodel::framing::{decide, Framing};
 use crate::refmodel::reqvalid::{self, ReqFacts};
 
-pub const RULE: &str = "scenarios = requests (9 methods x {1.0,1.1} x Expect {no,yes} x send-body-despite-method {no,yes} x framing header {none, content-length: 3, content-length: 0, transfer-encoding: chunked}; rejected ones are kept and must stay in SendRequest) x server behaviours (interim 100 in time / late via give-up, silent server, refusal bare 403 / 403 with fields, final status {200,204,304,404,302 with Location,302 without,307 with Location} x version {1.0,1.1} x body {no framing header, Content-Length: 0, Content-Length: 3, chunked}); coarse I/O (whole message or cuts after the status line / after the head / mid-body; thorough: 1-byte arrivals too); in every state: all permitted calls incl. proceed() on a clone whether or not ready, head write after completion, finishing write after the end, reads after the end, as_new_flow with both policies (twice) followed by a complete second exchange on the new flow; successor state compared with the documented graph at every edge; every state must reach Cleanup. distinct = distinct (scenario, final observation)";
+pub const RULE: &str = "scenarios = requests (9 methods x {1.0,1.1} x Expect {no,yes} x send-body-despite-method {no,yes} x framing header {none, content-length: 3, content-length: 0, transfer-encoding: chunked}; rejected ones are kept and must stay in SendRequest) x server behaviours (interim 100 in time / late via give-up, silent server, refusal bare 403 / 403 with fields, final status {200,204,205,300,304,404,302 with Location,302 without,307 with Location,399 with Location} x version {1.0,1.1} x body {no framing header, Content-Length: 0, Content-Length: 3, chunked}); coarse I/O (whole message or cuts after the status line / after the head / mid-body; thorough: 1-byte arrivals too); in every state: all permitted calls incl. proceed() on a clone whether or not ready, head write after completion, finishing write after the end, reads after the end, as_new_flow with both policies (twice) followed by a complete second exchange on the new flow; successor state compared with the documented graph at every edge; every state must reach Cleanup. distinct = distinct (scenario, final observation)";
 
 const METHODS: [&str; 9] = ["GET", "HEAD", "POST", "PUT", "DELETE", "CONNECT", "OPTIONS", "TRACE", "PATCH"];
 
 fn requests() -> Vec<(ReqSpec, bool)> {
     let mut v = Vec::new();
+    // requests whose credential headers are repeated (they are suppressed as a group when a redirect is followed)
+    for m in ["GET", "POST"] {
+        let mut r = req(m, "1.1", if m == "POST" { ReqFraming::Length(3) } else { ReqFraming::Default }, 3, false, false, false);
+        r.cfg = r.cfg.orig("cookie", "a=1").orig("authorization", "A1").orig("cookie", "b=2").orig("authorization", "A2");
+        r.label.push_str(" repeated-credentials");
+        v.push((r, true));
+    }
     for m in METHODS {
         for ver in ["1.0", "1.1"] {
             for expect in [false, true] {
@@ -101,10 +108,10 @@ pub fn build(tier: Tier) -> Vec<Arc<ExchCfg>> {
         let method = r.cfg.method.as_str();
         let expect = r.cfg.expects_100() && r.cfg.body_due();
         let mut finals: Vec<RespMsg> = Vec::new();
-        for status in [200u16, 204, 304, 404, 302, 3020, 307] {
+        for status in [200u16, 204, 304, 404, 302, 3020, 307, 300, 399, 205] {
             for ver in ["1.0", "1.1"] {
                 for body in ["none", "cl0", "cl3", "chunked"] {
-                    let (st, loc) = if status == 3020 { (302, false) } else { (status, status == 302 || status == 307) };
+                    let (st, loc) = if status == 3020 { (302, false) } else { (status, status == 302 || status == 307 || status == 399) };
                     let extra: Vec<(&str, &str)> = if loc { vec![("Location", "/next")] } else { vec![] };
                     let b = match body {
                         "none" => BodySpec::NoHeader(b"xyz".to_vec()),
@@ -204,7 +211,6 @@ pub fn run(tier: Tier) -> Report {
         return rep;
     }
     let cfgs = build(tier);
-    crate::engine::WD_LIMIT_S.store(120, std::sync::atomic::Ordering::Relaxed);
     let lim = Limits { max_states: 1_000_000, keep_final_traces: 2, keep_state_traces: 2, check_coreach: true, probe_every: 8, ..Default::default() };
     let mut rep = run_exchanges(cfgs, &lim, false, |c| c.to_json());
     let fs = rep.extra.get("final_states").and_then(|v| v.as_u64()).unwrap_or(0);
